@@ -33,6 +33,7 @@ def run(ctx, repo):
                    'from_actions dispatches by name with the logged argument')
     ctx.rule('R2', "three-way letter agreement: action_letter == letters written by Jumper.* == bib_trial dispatch ('-' is a no-op)")
     ctx.rule('R3', 'trials / trial_objs read only the log')
+    ctx.rule('R4', 'to_matrix exports every bar position: its header iterates self.heights unsliced and unfiltered')
 
     # ---- R1
     for m in MUTATORS:
@@ -178,6 +179,31 @@ def run(ctx, repo):
     if not any('unlogged state change' in f.construct for f in ctx.findings):
         ctx.ok('R1', '%d observers (methods and properties of both classes) change no state, aliases included' % n_obs)
 
+    # ---- R4 the exported card names every bar position: the header of to_matrix iterates self.heights itself (no slice, no filter);
+    # a height that nobody has tried yet is state (bar_height, dismissed flags, 'started') and must survive export / import
+    tm = Cm.get('to_matrix')
+    if tm is None:
+        raise AnalysisError('anchor vanished: to_matrix')
+    class _Loop:          # a for statement over the heights, seen as a one-generator comprehension
+        def __init__(self, f):
+            self.generators = [type('G', (), {'iter': f.iter, 'ifs': []})()]
+            self.lineno = f.lineno
+    hdr = [g for g in ast.walk(tm) if isinstance(g, (ast.ListComp, ast.GeneratorExp)) and any(
+        isinstance(x, ast.Attribute) and x.attr == 'heights' for x in ast.walk(g.generators[0].iter))]
+    hdr += [_Loop(f) for f in ast.walk(tm) if isinstance(f, ast.For) and any(
+        isinstance(x, ast.Attribute) and x.attr == 'heights' for x in ast.walk(f.iter))]
+    if not hdr:
+        ctx.finding('R4', '%s::%s.to_matrix::header of heights' % (HJ, COMP), HJ, tm.lineno, 'to_matrix no longer builds its header from self.heights')
+    for g in hdr:
+        it = g.generators[0].iter
+        if isinstance(it, ast.Attribute) and it.attr == 'heights' and isinstance(it.value, ast.Name) and it.value.id == 'self' and not g.generators[0].ifs:
+            ctx.ok('R4', 'to_matrix: the header iterates self.heights, every bar position is exported')
+        else:
+            ctx.finding('R4', '%s::%s.to_matrix::header of heights' % (HJ, COMP), HJ, g.lineno,
+                        'the header of the exported card iterates `%s`%s, not all of self.heights: a bar position without marks (the bar just set, the '
+                        'first height, a lowered jump-off bar) is dropped, and the re-imported competition has the old bar, stale dismissed flags and '
+                        'possibly the state scheduled' % (unparse(it), ' with a filter' if g.generators[0].ifs else ''),
+                        'to_matrix() right after set_bar_height(), then from_matrix()')
     # ---- R2 letters
     al = None
     for st in comp.body:
